@@ -61,9 +61,13 @@ def run(ctx):
     # the registration test precedes the PRF evaluation
     cfg = fr.cfg
     from .common import block_in_frame
-    gets = [e for e in Q.calls(eng, "ServerPublicKey::get") if e["frame"] == fr.key]
-    pb = block_in_frame(eng, prf[0], fr) if prf else None
-    okorder = bool(gets) and pb is not None and cfg.dominates(gets[0]["block"], pb)
+    okorder = False
+    if prf:
+        # the PRF evaluation is reached only where the tag is known to be registered
+        fp = Q.closure(eng, eng.facts_at(prf[0]["frame"], prf[0]["block"]))
+        okorder = any(t.op == "map_has" and rel == "eq" and v == 1 and Q.params(Q.leaves(t.args[0])) and
+                      all(p.startswith("self.%d" % ipk) for p in Q.params(Q.leaves(t.args[0]))) and Q.path_of(t.args[1]) == "md"
+                      for t, rel, v in fp)
     ctx.add("C14.R2", root + "#registration-check-first", okorder, "the registration check must dominate the PRF evaluation", at)
     # new registers exactly the given tags
     rootn = P + "Server::new"
